@@ -30,6 +30,14 @@ theorem inner_loop_model : ∀ e ∈ eosInner, ∀ p ∈ partsOf e.1.1,
 theorem inner_merge : (∀ e ∈ eosParts, norm e.2.2.2.2.1 = norm (e.2.2.2.2.2.1 ++ e.2.2.1)) ∧
     (∀ e ∈ eosOuter, ∀ i ∈ eosInner.lookup (e.1, 1), norm i = norm e.2) := by decide +kernel
 
+/-- hypotheses of the all-`n` theorem (RV.Proofs.C01EosAllN), for every type: exact merging, cancelling processors, one
+    sub-step consistent -/
+theorem all_n_hypotheses : ∀ e ∈ eosParts,
+    driftSum e.2.2.2.2.1 = driftSum e.2.2.1 + driftSum e.2.2.2.2.2.1 ∧ comSum e.2.2.2.2.1 = comSum e.2.2.1 + comSum e.2.2.2.2.2.1 ∧
+    kickSum e.2.2.2.2.1 = kickSum e.2.2.1 + kickSum e.2.2.2.2.2.1 ∧
+    driftSum e.2.1 + driftSum e.2.2.2.2.2.2 = 0 ∧ comSum e.2.1 + comSum e.2.2.2.2.2.2 = 0 ∧ kickSum e.2.1 + kickSum e.2.2.2.2.2.2 = 0 ∧
+    Consistent (e.2.2.1 ++ e.2.2.2.1 ++ e.2.2.2.2.2.1) tolEOS := by decide +kernel
+
 theorem advertised_known : ∀ e ∈ eosOuter, (eos.lookup e.1).isSome := by decide +kernel
 
 /-- advertised (generalised) orders; jerk terms enter as `exp(b·B + κ·v·[B,[B,A]])`, κ = −1 -/
